@@ -67,4 +67,39 @@ func init() {
 		Rule: "one run = 1-3 targets (TCP v4/v6 literal over the virtual TCP stub: accept after a virtual delay of 0..100ms, refuse, drop, accept-then-reset; unix: listening or absent) and 1-6 concurrent DialConnection calls with timeout 0/1/5/50ms; the connect completing and the timeout firing are both scheduler events; a returned connection must complete an echo round trip; non-trivial = every run; distinct = distinct step-trace hash",
 		Assume: []string{"the TCP handshake is a stub (vsys virtual TCP over AF_UNIX: EINPROGRESS, completion/refusal/silence after a virtual delay, SO_ERROR, deferred epoll registration); everything after the connect is the real kernel", "IP literals only (no DNS)", "an untimed dial into a black hole is not generated"},
 		Real:   commonReal, Stub: append(append([]string{}, commonStub...), "TCP three-way handshake (vsys virtual TCP)")})
+
+	addPlan(&propertyPlan{ID: "C17",
+		Scenarios: []scenarioPlan{{Name: "c17_shardqueue", Quick: 30000, Thorough: 1500000}},
+		Rule: "one run = a ShardQueue with 1-4 shards over a real connection whose peer drains; 1-4 adder tasks issue 1-4 bursts of 1-3 getters each (unique 8-byte records, some getters return a nil buffer), an optional Close at a seeded time and an optional Add after Close returned; the worker runs as a simulator task through the RunTask seam; non-trivial = more than one getter; distinct = distinct step-trace hash",
+		Assume: []string{"the connection stays alive (the peer drains)", "getters are cheap and do not block"},
+		Real:   append(append([]string{}, commonReal...), "mux/shard_queue.go"), Stub: commonStub})
+
+	addPlan(&propertyPlan{ID: "C12",
+		Scenarios: []scenarioPlan{{Name: "c12_closed", Quick: 40000, Thorough: 1500000}},
+		Rule: "the product {36 Connection/Reader/Writer methods} x {closed by user, by peer, by peer then user, detached} x {5 bytes of input buffered or none} x {unflushed output pending or none} x {accepted connection with OnConnect and a close callback, or a bare FD connection} x {called once or twice} x {a new connection has reused the poller slot or not} = 9216 cases is sampled by the workload tape, each case reached inside the simulator under seeded schedules and the method then called from a fresh task; non-trivial = every case; distinct = distinct step-trace hash; distinct_abstract_states counts distinct cases of the product",
+		Assume: []string{"zero-copy results obtained before the close are not used afterwards", "buffered input of a peer-closed connection stays readable only while the user has not closed it and it has no OnConnect/OnRequest (netpoll then tears it down itself)"},
+		Real:   commonReal, Stub: commonStub})
+
+	addPlan(&propertyPlan{ID: "C10",
+		Scenarios: []scenarioPlan{{Name: "c10_isolation", Quick: 20000, Thorough: 1000000}, {Name: "c12_closed", Quick: 10000, Thorough: 300000}},
+		Rule: "one run = 2-4 generations of connections over one poller and a small descriptor pool: each generation opens a socket pair (lowest free descriptor numbers and the freed poller slot are reused), its peer sends a private position-keyed stream, a reader consumes it, and it is closed by the user, by the peer, or left open; a stale caller keeps invoking Release/Close/Next/Write/Flush/Len/Skip on connections that are already closed, at seeded steps, including between the fetch and the dispatch of a poller batch; after every generation the slot ownership is audited in-package; non-trivial = every run; distinct = distinct step-trace hash",
+		Assume: []string{"one reader per connection; stale calls come from one extra goroutine", "a peer-closed connection without callbacks is closed by the user (documented)"},
+		Real:   commonReal, Stub: commonStub})
+	addPlan(&propertyPlan{ID: "C11",
+		Scenarios: []scenarioPlan{{Name: "c11_poller", Quick: 15000, Thorough: 700000}, {Name: "c18_pool", Quick: 3000, Thorough: 100000}},
+		Rule: "one run = the real defaultPoll loop with 1-140 harness-owned FDOperators over socket pairs (140 makes the batch cross the 128-event growth threshold); up to 8 peers write 0-3000 bytes in seeded chunkings and then stay, close, half-close or close with unread data; a third of the descriptors also have output to send through the poller; optional Detach(+Free), Trigger and finally Close from other tasks; kernel short reads/writes, EAGAIN, epoll EINTR and batch clipping; the flag combinations are those the real kernel produces for AF_UNIX; non-trivial = every run; distinct = distinct step-trace hash",
+		Assume: []string{"detaching a descriptor means deregistering it and handing its slot back (what connection does); TCP-only flag combinations are not produced", "poll_default_bsd.go cannot be built on this platform and is outside the check"},
+		Real:   commonReal, Stub: commonStub})
+
+	addPlan(&propertyPlan{ID: "C19",
+		Scenarios: []scenarioPlan{
+			{Name: "c05_teardown", Quick: 1500, Thorough: 60000, Race: true}, {Name: "c06_handler", Quick: 1000, Thorough: 40000, Race: true},
+			{Name: "c09_callbacks", Quick: 1000, Thorough: 40000, Race: true}, {Name: "c04_stream", Quick: 600, Thorough: 20000, Race: true},
+			{Name: "c07_reader", Quick: 1000, Thorough: 40000, Race: true}, {Name: "c08_flush", Quick: 800, Thorough: 30000, Race: true},
+			{Name: "c13_server", Quick: 800, Thorough: 30000, Race: true}, {Name: "c14_dial", Quick: 800, Thorough: 30000, Race: true},
+			{Name: "c17_shardqueue", Quick: 800, Thorough: 30000, Race: true}, {Name: "c18_pool", Quick: 500, Thorough: 20000, Race: true},
+			{Name: "c10_isolation", Quick: 500, Thorough: 20000, Race: true}},
+		Rule: "the scenarios of C04-C10, C13, C14, C17, C18 (public API inside its concurrency contract: one reader, one writer, any number of closers per connection; no reconfiguration concurrent with Pick) executed in a -race build of the rewritten tree (netpoll's own race-build files: SafeLinkBuffer, fd->operator map); the simulator's hand-offs are hidden from the detector (runtime.RaceDisable around them, //go:norace on the shims), vsync.Mutex/Map are built on real atomics and vatomic calls the real instrumented atomics, so happens-before comes from netpoll's own synchronisation only; every new detector report is attributed to the run that produced it, reports with an access made by harness code are discarded; non-trivial/distinct as in the hosting scenario",
+		Assume: []string{"the Go race detector is the oracle (trusted base)", "a report is a pair of conflicting accesses that are unordered in that execution; the schedule search supplies which accesses occur", "reports are deduplicated per process, so a reported run is confirmed by replaying its unminimised tapes in a fresh process"},
+		Real:   commonReal, Stub: commonStub})
 }
